@@ -201,7 +201,7 @@ theorem uWriteChar_len (p : Nat → Bool) (c : Nat) (q : Quote) :
       simp only [h128, this, if_false]
       by_cases hp : p c = true
       · simp [hp, utf8LenList]
-      · simp only [hp, if_false]
+      · simp only [hp]
         by_cases h1 : c ≤ 0xff
         · have : c < 0x100 := by omega
           simp [h1, this, utf8LenList, utf8Len, utf8LenList_hexPad]
